@@ -181,7 +181,9 @@ type c19xTL struct {
 	stuck    int // relay counters that did not come down within the grace period (not judged here)
 }
 
-var c19xKinds = []string{"ok", "errframe", "timeout", "timeout-late", "cancel", "destslow", "srcslow", "nodest", "unreach", "starterr", "calleelost", "callerlost"}
+var c19xKinds = []string{"ok", "errframe", "timeout", "timeout-late", "cancel", "destslow", "srcslow", "nodest", "unreach", "starterr", "calleelost", "callerlost",
+	// calls on a relay connection that are NOT relayed (engine_c19local.go): they live in the exchange sets only
+	"local", "orig", "localmix", "origmix"}
 
 // an address nobody listens on and nobody else can get while the timeline runs: a socket that is
 // bound but never listens (connects are refused at once)
@@ -226,6 +228,7 @@ func c19xSetup(rng *rand.Rand, maxIdle int64, cfg c19Cfg) (*c19xTL, string) {
 		IdleCheckInterval: time.Duration(t.idleInterval), MaxIdleTime: time.Duration(t.maxIdle),
 		DefaultConnectionOptions: copts,
 		RelayHost:                &c19xHost{},
+		RelayLocalHandlers:       c19lLocalHandlers, // (engine_c19local.go) the channel's own service is handled locally
 		RelayTimerVerification:   rng.Intn(2) == 0,
 		Dialer: func(ctx context.Context, network, hp string) (net.Conn, error) {
 			d := net.Dialer{}
@@ -669,6 +672,10 @@ func (x *c19xTL) episode(kind string, a, b *c19Conn) {
 		a.sock.Close()
 		x.lost(a)
 		x.ended(a, b)
+
+	case "local", "orig", "localmix", "origmix":
+		// a call the relay channel handles itself / originates itself, pending over a sweep (engine_c19local.go)
+		x.c19lEpisode(kind, a, b)
 	}
 	if t.anomaly == "" {
 		for _, c := range []*c19Conn{a, b} {
@@ -763,7 +770,8 @@ func (x *c19xTL) finale(delta int64) {
 
 func (x *c19xTL) kindsID() string {
 	short := map[string]string{"ok": "ok", "errframe": "ef", "timeout": "to", "timeout-late": "tl", "cancel": "cn", "destslow": "ds", "srcslow": "ss",
-		"nodest": "nd", "unreach": "ur", "starterr": "se", "calleelost": "el", "callerlost": "rl"}
+		"nodest": "nd", "unreach": "ur", "starterr": "se", "calleelost": "el", "callerlost": "rl",
+		"local": "lo", "orig": "og", "localmix": "lm", "origmix": "om"}
 	var s []string
 	for _, k := range x.kinds {
 		s = append(s, short[k])
